@@ -175,7 +175,14 @@ const shadowDepth = 24
 // completes every older instruction before the redirect.
 func analyse(c *gen.Case, r *ref.Result, storeSlow, loadSlow, prefSlow bool) *analysis {
 	a := &analysis{c: c, r: r}
-	tr := r.Trace
+	// a conditional branch taken to the next instruction is predicted correctly:
+	// no flush, no drain, no wrong path — for this analysis it is not taken
+	tr := append([]ref.Step(nil), r.Trace...)
+	for i := range tr {
+		if tr[i].CondBr && tr[i].Taken && tr[i].Next == tr[i].Pc+4 {
+			tr[i].Taken = false
+		}
+	}
 	// --- F01
 	{
 		loaded := map[int32]bool{}
